@@ -536,7 +536,104 @@ def r8_exhaustive(repo, res):
            key="exhaustive-small-cigars")
 
 
+def r9_depth_conservation(repo, res):
+    """Depth conservation end to end: several reads through the lifted parser into one pair of tables, through the lifted coverage
+    construction and Coverage constructor, read back through the lifted accessors -- at every position the depth the stages see
+    equals the number of reads whose alignment spans it; inside the RefSeq-mapped part substitution counts are the reads showing
+    that base. The gene stub maps only part of the window (with a gap), so reads reach positions outside the mapped part."""
+    from sa.fold import ClassModel, Lifted
+
+    mk = repo.func("sam::Sample._make_coverage")
+    cov_init = repo.func("coverage::Coverage.__init__")
+    pr = repo.func("sam::Sample._parse_read")
+    res.analysed(mk, cov_init, pr)
+    S = START
+    mapped = set(range(S + 4, S + 14)) - {S + 9}
+    multi = {S + 5: "AA>CT", S + 10: "A.A>G.T"}
+    reads = [
+        ("reference read over the window", S, [(0, 20)], "A" * 20),
+        ("deletion reaching into the mapped part", S + 2, [(0, 3), (2, 4), (0, 5)], "A" * 8),
+        ("deletion outside the mapped part", S, [(0, 1), (2, 2), (0, 6)], "A" * 7),
+        ("complete two-base substitution", S + 3, [(0, 8)], "AACTAAAA"),
+        ("second read with the complete two-base substitution", S + 4, [(0, 4)], "ACTA"),
+        ("half of the two-base substitution", S + 3, [(0, 8)], "AACAAAAA"),
+        ("substitution outside the mapped part", S, [(0, 4)], "CAAA"),
+        ("insertion", S + 4, [(0, 2), (1, 2), (0, 3)], "AAGGAAA"),
+        ("soft clip, = and X runs", S + 6, [(4, 2), (7, 2), (8, 1), (0, 2)], "TTAACAA"),
+        ("complete dotted substitution", S + 9, [(0, 5)], "AGATA"),
+        ("deletion beyond the mapped part", S + 12, [(0, 2), (2, 3), (0, 2)], "AAAA"),
+        ("substitution in the gap of the mapping", S + 8, [(0, 3)], "AGA"),
+    ]
+    gene = GeneStub(lo=S - 5, hi=S + 30, mapped=mapped)
+    me = Obj(phases={}, gene=gene, phaseable={}, _indel_sites_eqs={}, _indel_sites={}, _multi_sites=dict(multi), profile="P", _dump_cn={}, coverage=None)
+    norm, muts = collections.defaultdict(list), collections.defaultdict(list)
+    depth = collections.Counter()
+    shows = collections.Counter()
+    try:
+        for label, start, cigar, seq in reads:
+            kind, val, _, _, _, _ = fold_parse_read(repo, cigar, seq, [30] * len(seq), ref_start=start, into=(me, norm, muts))
+            if kind == "raise":
+                res.ob("C06.R9", pr, pr, False, expected=f"{label}: parsed", found=f"raises {val}", key="depth-conservation")
+                return
+            wper, wins, _ = spec_pileup(cigar, seq, start)
+            for p, ks in wper.items():
+                depth[p] += len(ks)
+                for k in ks:
+                    shows[p, k] += 1
+        cinit = Lifted(cov_init)
+
+        def make_cov(*a, **k):
+            o = Obj()
+            cinit(o, *a, **k)
+            return o
+
+        Lifted(mk, funcs={"Coverage": make_cov})(me, norm, muts)
+        cm = ClassModel(repo.cls("coverage::Coverage"))
+        inst = cm.instance(_coverage=me.coverage._coverage, _indels=me.coverage._indels)
+        Mu = collections.namedtuple("Mutation", ["pos", "op"])
+        bad = []
+        for p in range(S - 1, S + 22):
+            got = cm.call("total", inst, [p], {})
+            if got != depth[p]:
+                bad.append(f"position {p}: depth read back {got}, {depth[p]} reads span it")
+        # substitutions inside the mapped part; the complete multi-nucleotide reads are counted under their variant at its first position
+        complete = {(S + 5, "A>C"): 2, (S + 6, "A>T"): 2, (S + 10, "A>G"): 1, (S + 12, "A>T"): 1}
+        for (p, k), n in sorted(shows.items()):
+            if k in ("_", "-") or p not in mapped:
+                continue
+            want = n - complete.get((p, k), 0)
+            got = cm.call("coverage", inst, [Mu(p, k)], {})
+            if got != want:
+                bad.append(f"substitution {k} at {p}: {got} observations, {want} reads show it (outside a complete multi-nucleotide substitution)")
+        for (p, k), n in (((S + 5, "AA>CT"), 2), ((S + 10, "A.A>G.T"), 1)):
+            got = cm.call("coverage", inst, [Mu(p, k)], {})
+            if got != n:
+                bad.append(f"multi-nucleotide substitution {k} at {p}: {got} observations, {n} reads show it completely")
+        for p in sorted(mapped - {S + 5, S + 6, S + 10, S + 11, S + 12}):
+            got = cm.call("coverage", inst, [Mu(p, "_")], {})
+            if got != shows[p, "_"]:
+                bad.append(f"reference count at {p}: {got}, {shows[p, '_']} reads show the reference base")
+        for p in (S, S + 1, S + 2, S + 15):   # outside the mapped part everything that spans the position counts as reference
+            got = cm.call("coverage", inst, [Mu(p, "_")], {})
+            if got != depth[p]:
+                bad.append(f"position {p} outside the mapped part: reference count {got}, {depth[p]} reads span it")
+    except Unfoldable as e:
+        res.err("C06.R9", f"parser / coverage construction / accessors outside the folding language: {e}")
+        return
+    except Raised as e:
+        res.ob("C06.R9", mk, mk, False, expected="the sample pileup is built", found=f"raises {e}", key="depth-conservation")
+        return
+    res.ob("C06.R9", mk, mk, not bad,
+           expected=f"{len(reads)} reads (every CIGAR operation, deletions and substitutions inside and outside the RefSeq-mapped part, complete and incomplete "
+                    "multi-nucleotide substitutions): at each of the 23 window positions the depth read back equals the number of spanning reads; substitution, "
+                    "multi-nucleotide and reference counts inside the mapped part equal the reads showing them",
+           found="agrees" if not bad else "; ".join(bad[:4]),
+           clause="at every position of the gene region the number of non-insertion observations equals the number of eligible reads whose alignment spans that position",
+           key="depth-conservation")
+
+
 def run(repo, res):
+    r9_depth_conservation(repo, res)
     r8_exhaustive(repo, res)
     r1_r2_r5(repo, res)
     r1_symbolic(repo, res)
@@ -549,6 +646,23 @@ def run(repo, res):
 
 
 MUTANTS = [
+    dict(name="R5 insertion quality averaged over one base too many", module="sam", expect="C06.R5",
+         old="                q = mean(qual[s_start : s_start + size]) if qual else prev_q", new="                q = mean(qual[s_start : s_start + size + 1]) if qual else prev_q"),
+    dict(name="R9 RefSeq membership tested at the run start", module="sam", expect=["C06.R9", "C06.R6", "C06.R2"],
+         old="                        start + i in self.gene\n                        and self.gene[start + i] != seq[s_start + i]", new="                        start in self.gene\n                        and self.gene[start + i] != seq[s_start + i]"),
+    dict(name="R9 deleted bases outside the mapped part dropped (seeded C06_c2 shape)", module="sam", expect="C06.R9",
+         old='                    muts[start + i, "-"].append((bin_quality(mq), bin_quality(prev_q)))',
+         new='                    if start + i in self.gene:\n                        muts[start + i, "-"].append((bin_quality(mq), bin_quality(prev_q)))'),
+    dict(name="R9 depth by whitelist of single-base keys (seeded C06_c3 shape)", module="coverage", expect="C06.R9",
+         old='sum(len(v) for p, v in self._coverage[pos].items() if p[:3] != "ins")',
+         new='sum(len(v) for p, v in self._coverage[pos].items() if p in ("_", "-") or p[:3] == "del" or (len(p) == 3 and p[1] == ">"))'),
+    dict(name="R9 out-of-region variants dropped instead of folded into reference", module="sam", expect=["C06.R9", "C06.R6"],
+         old='                mut = "_"  # ignore mutations outside of the region of interest', new='                continue'),
+    dict(name="R9 merged multi-nucleotide read not returned to the later positions", module="sam", expect=["C06.R9", "C06.R2"],
+         old="                        if p:  # no idea why...\n                            norm[pos + p].append(items[-1])", new="                        pass"),
+    dict(name="benign: depth filter through a helper predicate", module="coverage", kind="benign",
+         old='sum(len(v) for p, v in self._coverage[pos].items() if p[:3] != "ins")',
+         new='sum(len(v) for p, v in self._coverage[pos].items() if not p.startswith("ins"))'),
     dict(name="R4 original defect (closed-interval overlap test: touching reads accepted)", module="sam", expect="C06.R4",
          old="    return read.reference_start < region.end and region.start < read.reference_end",
          new="    a = (read.reference_start, read.reference_end)\n    b = (region.start, region.end)\n    return a[0] <= b[0] <= a[1] or b[0] <= a[0] <= b[1]"),
